@@ -7,7 +7,7 @@ for mp in sorted(glob.glob("/verif/seeded/*/meta.json")):
     det = m.get("checks_run_against_it (tools/eval_seeded.sh)", [])
     caught = [d for d in det if d["exit_code"] == 1]
     what = m["what_changed"].replace("|", "/").replace("**", "")
-    what = what[:230] + ("..." if len(what) > 230 else "")
+    what = what[:170] + ("..." if len(what) > 170 else "")
     by = ", ".join("%s %s: `%s`" % (d["check"], d["tier"], d["first_report"].split("]")[0].lstrip("[") ) for d in caught) or "MISSED"
     hist = " (*)" if "history" in m else ""
     rows.append("| %s%s | %s | %s | %s |" % (m["id"], hist, ", ".join(m["files_changed"]).replace("neat/genetics/", "g/").replace("neat/network/", "n/").replace("experiment/", "e/"), what, by))
